@@ -203,6 +203,8 @@ def run(tier, seed):
         # precedents reached through the reference operators
         jobs.append(('refops', [None, 2], 'NoData', ('-',), seed, 5))
         jobs.append(('refops', [None, 2], 'Stored', ('-',), seed, 5))
+        # a range of more than 10 000 cells
+        jobs.append(('bigrange', [2], 'NoData', ('-',), seed, 5))
         # unbounded ranges which resolve to a single cell
         jobs.append(('onecell', [None, 5, 'a'], 'NoData', ('-',), seed, 5))
         jobs.append(('onecell', [None, 5], 'Stored', ('-',), seed, 5))
@@ -217,6 +219,8 @@ def run(tier, seed):
             for src in ('NoData', 'Stored', 'Loaded'):
                 if name == 'twosheet' and src == 'Stored':
                     continue        # the stored-result writer patches one sheet only
+                if name == 'bigrange' and src != 'NoData':
+                    continue        # (10 000 cells per compile: one source)
                 jobs.append((name, W.POOL_QUICK, src,
                              ('yml', 'json', 'pkl') if src == 'Loaded' else ('-',),
                              seed, 5))
